@@ -41,36 +41,46 @@ def gen():
     if not m:
         raise F.FactError("ConnectionMatrix::index(&self, left: u16, right: u16) not found")
     b = F.fn_body(t, "index", rel)
-    if not (re.search(r"let\s+uleft\s*=\s*left\s+as\s+usize\s*;", b) and re.search(r"let\s+uright\s*=\s*right\s+as\s+usize\s*;", b)):
+    # local names are free: `let <ul> = left as usize; let <ur> = right as usize; let <ix> = <formula>; <ix>`
+    ml = re.search(r"let\s+(\w+)\s*=\s*left\s+as\s+usize\s*;", b)
+    mr = re.search(r"let\s+(\w+)\s*=\s*right\s+as\s+usize\s*;", b)
+    if not (ml and mr):
         raise F.FactError("ConnectionMatrix::index: uleft/uright are no longer `left/right as usize`")
-    mi = re.search(r"let\s+index\s*=\s*([^;]+);", b)
+    ul, ur = ml.group(1), mr.group(1)
+    mret = re.search(r"\n\s*(\w+)\s*\n?\s*$", b)
+    if not mret:
+        raise F.FactError("ConnectionMatrix::index no longer returns `index`")
+    ix = mret.group(1)
+    mi = re.search(r"let\s+%s\s*=\s*([^;]+);" % re.escape(ix), b)
     if not mi:
         raise F.FactError("ConnectionMatrix::index: `let index = ...` not found")
-    names = {"uleft": "ILeft", "uright": "IRight", "left": "ILeft", "right": "IRight", "num_left": "INumLeft", "num_right": "INumRight"}
+    names = {ul: "ILeft", ur: "IRight", "left": "ILeft", "right": "IRight", "num_left": "INumLeft", "num_right": "INumRight"}
     out.append("Definition matrix_index : iexp := %s.\n" % parse_iexp(mi.group(1), names, rel + ":index"))
-    if not re.search(r"\n\s*index\s*\n?\s*$", b):
-        raise F.FactError("ConnectionMatrix::index no longer returns `index`")
     asserts = re.findall(r"debug_assert!\(([^;]+)\);", b)
-    known = {"uleft < self.num_left": "left_lt_num_left", "uright < self.num_right": "right_lt_num_right", "index < self.data.len()": "index_lt_len"}
+    known = {"%s < self.num_left" % ul: "left_lt_num_left", "%s < self.num_right" % ur: "right_lt_num_right", "%s < self.data.len()" % ix: "index_lt_len"}
+    # the same assertions written the other way round
+    for k in list(known):
+        x, y = k.split(" < ")
+        known["%s > %s" % (y, x)] = known[k]
     got = []
     for a in asserts:
         a = " ".join(a.split())
         if a not in known:
             raise F.FactError("unrecognised debug_assert!(%s) in ConnectionMatrix::index" % a)
         got.append(known[a])
-    for k in known.values():
+    for k in ("left_lt_num_left", "right_lt_num_right", "index_lt_len"):
         out.append("Definition debug_asserts_%s : bool := %s.\n" % (k, "true" if k in got else "false"))
-    for fn, pat in (("cost", r"let\s+index\s*=\s*self\.index\(left,\s*right\)\s*;"), ("update", r"let\s+index\s*=\s*self\.index\(left,\s*right\)\s*;")):
+    for fn in ("cost", "update"):
         fb = F.fn_body(t, fn, rel)
-        if not re.search(pat, fb):
+        mc = re.search(r"let\s+(\w+)\s*=\s*self\.index\(left,\s*right\)\s*;", fb)
+        if not mc:
             raise F.FactError("ConnectionMatrix::%s no longer calls self.index(left, right)" % fn)
-    ub = F.fn_body(t, "update", rel)
-    if not re.search(r"self\.data\.set\(index,\s*value\)", ub):
-        raise F.FactError("ConnectionMatrix::update no longer is data.set(index, value)")
+        if fn == "update" and not re.search(r"self\.data\.set\(%s,\s*value\)" % re.escape(mc.group(1)), fb):
+            raise F.FactError("ConnectionMatrix::update no longer is data.set(index, value)")
     # CowArray::set is a bounds-checked slice store
     ct = F.strip_comments(F.src("sudachi/src/util/cow_array.rs"))
     sb = F.fn_body(ct, "set", "sudachi/src/util/cow_array.rs")
-    if not re.search(r"s\[offset\]\s*=\s*value", sb):
+    if not re.search(r"\|(\w+)\|\s*\1\[offset\]\s*=\s*value", sb):
         raise F.FactError("CowArray::set is no longer the checked store s[offset] = value")
     # ---- dic/grammar.rs: argument order is passed through
     rel = "sudachi/src/dic/grammar.rs"
@@ -99,10 +109,12 @@ def gen():
     rel = "sudachi/src/dic/build/conn.rs"
     t = F.strip_comments(F.src(rel))
     b = F.fn_body(t, "write_elem", rel)
-    mi = re.search(r"let\s+index\s*=\s*([^;]+);", b)
+    mi = re.search(r"let\s+(\w+)\s*=\s*([^;]*\bself\.num_(?:left|right)\b[^;]*);", b)
     if not mi:
         raise F.FactError("write_elem: `let index = ...` not found")
-    out.append("Definition write_elem_index : iexp := %s.\n" % parse_iexp(mi.group(1), names, rel + ":write_elem"))
-    if not re.search(r"let\s+index\s*=\s*index\s*\*\s*2\s*;", b):
+    names = {"left": "ILeft", "right": "IRight", "num_left": "INumLeft", "num_right": "INumRight"}
+    out.append("Definition write_elem_index : iexp := %s.\n" % parse_iexp(mi.group(2), names, rel + ":write_elem"))
+    m2 = re.search(r"let\s+(\w+)\s*=\s*%s\s*\*\s*2\s*;" % re.escape(mi.group(1)), b)
+    if not m2 or not re.search(r"self\.matrix\[%s\]\s*=" % re.escape(m2.group(1)), b):
         raise F.FactError("write_elem: byte index is no longer index * 2")
     return "".join(out)
